@@ -131,6 +131,14 @@ def havoc_assigned(eng, st, q, skip=()):
         q.env[nm] = eng.havoc_like(v, nm + "_havoc", q)
 
 
+def _same_int64(eng, p, v, v64):
+    """the stored value equals the int64 v64: compared as bit-vectors when the code kept a 64-bit C integer (stable for z3; the
+    BV2Int form of the same statement flips between 0.01 s and a timeout), else as integers"""
+    if isinstance(v, CI) and v.bits == 64:
+        return v.bv == v64
+    return _sval(eng, p, v) == z3.BV2Int(v64, is_signed=True)
+
+
 def _sval(eng, p, v):
     """signed integer value of whatever the code stored"""
     if isinstance(v, CI):
@@ -352,7 +360,7 @@ def read_thrift_kind(kind, timeout):
                         goal = eng.truth(val, b) == z3.BoolVal(kind == "true") if not isinstance(val, PyB) else \
                             (val.z if hasattr(val, "z") else z3.BoolVal(bool(val.b))) == z3.BoolVal(kind == "true")
                     elif kind in ("i16", "i32", "i64"):
-                        goal = _sval(eng, b, val) == z3.BV2Int(v64, is_signed=True)
+                        goal = _same_int64(eng, b, val, v64)
                     elif kind == "i8":
                         sb = z3.Select(mem0, loc0 + 1)
                         goal = _sval(eng, b, val) == z3.BV2Int(sb, is_signed=True)
@@ -544,7 +552,7 @@ def read_list_kind(kind, form, timeout):
             if one:
                 val = app[0]
                 if kind in ("int5", "int6"):
-                    goal = _sval(eng, b, val) == z3.BV2Int(v64, is_signed=True)
+                    goal = _same_int64(eng, b, val, v64)
                 elif kind == "str":
                     h = getattr(val, "h", None)
                     if isinstance(h, PyObj) and h.kind == "bytes":
